@@ -6,12 +6,15 @@
 
 #[macro_use]
 pub mod engine;
+pub mod gen;
+pub mod c13;
 pub mod c16;
 
 use engine::{Property, Tier};
 
 fn properties() -> Vec<fn() -> Property> {
     vec![
+        c13::property,
         c16::property,
     ]
 }
